@@ -98,7 +98,7 @@ def oracle(case, meta, out):
 def run_prim(chk, replay=None):
     gate, hb = core.std_setup(chk)
     rng = random.Random(chk.seed)
-    n = 20000 if chk.tier == "quick" else 300000
+    n = 20000 if chk.tier == "quick" else 1500000
     have_model = gate is not None and core.os.path.exists(core.RUNNER)
     if replay is not None:
         items = [(replay["case"], tuple(replay.get("meta", ("replay", False))))]
